@@ -206,30 +206,31 @@ type Hint = (usize, Option<usize>);
 fn show_hint(h: Hint) -> String { match h.1 { Some(u) => format!("H{}:{}", h.0, u), None => format!("H{}:inf", h.0) } }
 
 /// iterate the real windower: size_hint before every next, first `bin` frames of every chunk
-fn real_run<S: Smp, const N: usize, W: WindowFn<f64, Output = f64>>(frames: &[[S; N]], bin: usize, hop: usize, cap: usize) -> Vec<(Hint, Option<Vec<[S; N]>>)> {
+fn real_run<S: Smp, const N: usize, W: WindowFn<f64, Output = f64>>(frames: &[[S; N]], bin: usize, hop: usize, cap: usize) -> (Vec<(Hint, Option<Vec<[S; N]>>)>, Vec<usize>) {
     let mut w: Windower<[S; N], W> = Windower::new(frames, bin, hop);
     let mut out = Vec::new();
+    let mut left = Vec::new();     // `windower.frames.len()` (a public field) after every chunk: what is left behind
     for _ in 0..cap {
         let h = w.size_hint();
         match w.next() {
-            Some(chunk) => out.push((h, Some(chunk.take(bin).collect()))),
+            Some(chunk) => { out.push((h, Some(chunk.take(bin).collect()))); left.push(w.frames.len()); }
             None => { out.push((h, None)); break; }
         }
     }
-    out
+    (out, left)
 }
 
 fn one_case<S: Smp, const N: usize, W: WindowFn<f64, Output = f64>>(st: &mut Stream, rng: &mut Rng, kind: &str, l: usize, bin: usize, hop: usize, cap: usize, in_domain: bool) {
     let frames: Vec<[S; N]> = (0..l).map(|_| { let mut f = [S::EQUILIBRIUM; N]; for c in 0..N { f[c] = S::random(rng); } f }).collect();
     let mut op = format!("wdr {} {} {} {} {} {} {}", S::NAME, kind, N, bin, hop, cap, l);
     for f in &frames { for c in 0..N { op.push(' '); op.push_str(&f[c].show()); } }
-    let Some(run) = guarded(|| real_run::<S, N, W>(&frames, bin, hop, cap)) else {
+    let Some((run, left)) = guarded(|| real_run::<S, N, W>(&frames, bin, hop, cap)) else {
         if in_domain { st.oracle_fail("windower panicked", &op, "", "panic"); }
         st.case(&op, "panic", true, 1); return;
     };
-    let obs: Vec<String> = run.iter().map(|(h, c)| match c {
+    let obs: Vec<String> = run.iter().enumerate().map(|(i, (h, c))| match c {
         None => format!("{} N", show_hint(*h)),
-        Some(fr) => format!("{} C{}", show_hint(*h), fr.iter().flat_map(|f| f.iter().map(|s| s.show())).collect::<Vec<_>>().join(",")),
+        Some(fr) => format!("{} C{} R{}", show_hint(*h), fr.iter().flat_map(|f| f.iter().map(|s| s.show())).collect::<Vec<_>>().join(","), left[i]),
     }).collect();
     let n_chunks = run.iter().filter(|r| r.1.is_some()).count();
     let ended = run.last().map(|r| r.1.is_none()).unwrap_or(false);
@@ -338,21 +339,22 @@ fn rebin_case<S: Smp, const N: usize, W: WindowFn<f64, Output = f64>>(st: &mut S
     let run = guarded(|| {
         let mut w: Windower<[S; N], W> = Windower::new(&frames, bin, hop);
         let mut out: Vec<(Hint, Option<Vec<[S; N]>>)> = Vec::new();
+        let mut left: Vec<usize> = Vec::new();
         for i in 0..cap {
             if i == k { w.bin = b2; w.hop = h2; }
             let h = w.size_hint();
             let b_now = w.bin;
             match w.next() {
-                Some(chunk) => out.push((h, Some(chunk.take(b_now).collect()))),
+                Some(chunk) => { out.push((h, Some(chunk.take(b_now).collect()))); left.push(w.frames.len()); }
                 None => { out.push((h, None)); break; }
             }
         }
-        out
+        (out, left)
     });
-    let Some(run) = run else { st.oracle_fail("windower panicked", &op, "", "panic"); st.case(&op, "panic", true, 1); return; };
-    let obs: Vec<String> = run.iter().map(|(h, c)| match c {
+    let Some((run, left)) = run else { st.oracle_fail("windower panicked", &op, "", "panic"); st.case(&op, "panic", true, 1); return; };
+    let obs: Vec<String> = run.iter().enumerate().map(|(i, (h, c))| match c {
         None => format!("{} N", show_hint(*h)),
-        Some(fr) => format!("{} C{}", show_hint(*h), fr.iter().flat_map(|f| f.iter().map(|s| s.show())).collect::<Vec<_>>().join(",")),
+        Some(fr) => format!("{} C{} R{}", show_hint(*h), fr.iter().flat_map(|f| f.iter().map(|s| s.show())).collect::<Vec<_>>().join(","), left[i]),
     }).collect();
     // reference: a plain cursor over the frames
     let short = if op.len() > 400 { format!("{}…", &op[..400]) } else { op.clone() };
